@@ -1125,7 +1125,10 @@ fn remove_dnssec(
         let rr = rr?
             .into_record::<AllRecordData<_, ParsedName<_>>>()?
             .expect("record expected");
-        if is_dnssec(rr.rtype()) {
+        // A DS record in the authority section is part of a referral that
+        // was sent because the DO flag was set. Without the DO flag it
+        // would not be there.
+        if is_dnssec(rr.rtype()) || rr.rtype() == Rtype::DS {
             continue;
         }
         target.push(rr).expect("push error");
